@@ -134,6 +134,7 @@ ResultsUnique == \A ws \in BOOLEAN : LET a == ItAll(doc, ws) IN \A i \in 1..Len(
 \* defaults of the strictness flag (constant level, tiny: an INVARIANT so that the negative control is a
 \* reported violation)
 DefaultsLaw ==
+    /\ Len(doc) >= 0          \* (state level on purpose: a constant-level invariant that is false is a TLC error, not a violation)
     /\ \A api \in {"iter", "ctor"}, arg \in {"none", "empty", "other"} : EffWs("plain", api, arg, CfgFlags)
     /\ \A arg \in {"none", "empty"} : ~EffWs("lenient", "iter", arg, CfgFlags) /\ EffWs("lenient", "ctor", arg, CfgFlags)
     /\ \A cls \in {"plain", "lenient"}, api \in {"iter", "ctor"} : EffWs(cls, api, "T", CfgFlags) /\ ~EffWs(cls, api, "F", CfgFlags)
@@ -141,11 +142,17 @@ DefaultsLaw ==
 ----------------------------------------------------------------------------
 \* emission
 Same(k, s) == IF k = s THEN "=" ELSE k
+\* as-built results: "=" when no defect switch changes anything, else what `exact` alone (e), `stop` alone (s)
+\* and both (b) give, so that the harness can attribute a divergence to ONE finding
+FX(exact, stop) == Flags(exact, stop, FALSE, FALSE, FALSE, FALSE, FALSE)
 PerWant(ws) == [w \in WIdx |->
     LET c  == Ctor(doc, ws, Wants[w], StmtFlags)
         i  == Iter(doc, ws, Wants[w], StmtFlags)
+        ie == Iter(doc, ws, Wants[w], FX(TRUE, FALSE))
+        is == Iter(doc, ws, Wants[w], FX(FALSE, TRUE))
+        ib == Iter(doc, ws, Wants[w], FX(TRUE, TRUE))
     IN [c |-> c, i |-> i, kc |-> Same(Ctor(doc, ws, Wants[w], BuiltFlags), c),
-        ki |-> Same(Iter(doc, ws, Wants[w], BuiltFlags), i)]]
+        ki |-> IF ie = i /\ is = i /\ ib = i THEN "=" ELSE [e |-> ie, s |-> is, b |-> ib]]]
 Case(ws) == [dom |-> InDomain(doc, ws), w |-> PerWant(ws), split |-> Split(doc, ws)]
 EmitCase ==
     (Emit /\ Len(doc) >= EmitMin /\ (InDomain(doc, TRUE) \/ InDomain(doc, FALSE))) =>
